@@ -26,11 +26,15 @@ RULE = (
     "leaves); each graph is evaluated directly (compile_parameter) and as 2-4 structurally identical "
     "copies with different leaf values inside a circuit under fold / optimize; distinct = graph "
     "signature (node kinds, shapes, axes); non-trivial = at least one operator node"
+    " Also (refcircuit): a circuit B whose V same-shaped layers point (ReferenceParameter, bare or under exp / "
+    "a Hadamard with an own tensor) to the tensors of a circuit A compiled earlier in the same compiler, "
+    "through every kind of map {identity, permutation of all, proper subset, with repetitions}, 4 flags, "
+    "3 semirings, re-checked after an in-place update of A;"
 )
 EXHAUSTIVE_SUBSPACES = ["every operator kind x every axis (both spellings) for ranks 1-3 at depth 1"]
 ASSUMPTIONS = ["numpy / scipy definitions in vf/ref.py are the documented functions", "Log / stddev inputs are generated strictly positive"]
 FLOOR = {("node:" + k): 1 for k in pgen.ALL_NODE_KINDS}
-FLOOR.update({"folded:F>1": 1, "axis:negative": 1, "axis:nonlast": 1, "complex-leaves": 1, "param_values_compared": 500, "opt:rewritten": 1, "opt:einsum": 1, "opt:logsoftmax": 1})
+FLOOR.update({"ref:permuted-all": 1, "ref:subset": 1, "ref:repeated": 1, "ref:identity": 1, "ref:fold>1": 1, "ref_circuit_checks": 20, "folded:F>1": 1, "axis:negative": 1, "axis:nonlast": 1, "complex-leaves": 1, "param_values_compared": 500, "opt:rewritten": 1, "opt:einsum": 1, "opt:logsoftmax": 1})
 
 
 def plan(tier, seed):
@@ -44,6 +48,8 @@ def plan(tier, seed):
         cases.append({"kind": "compose", "k": k, "seed": seed})
     for k in range(6 if tier == "quick" else 540):
         cases.append({"kind": "reference", "k": k, "seed": seed})
+    for k in range(32 if tier == "quick" else 1600):
+        cases.append({"kind": "refcircuit", "k": k, "seed": seed})
     return cases
 
 
@@ -193,6 +199,8 @@ def run_case(case) -> Result:
     rng = case_rng(ID, case["seed"], (case["kind"], case.get("op"), case.get("rank"), case["k"]))
     if case["kind"] == "reference":
         return reference_case(res, rng)
+    if case["kind"] == "refcircuit":
+        return refcircuit_case(res, rng, case["k"])
     if case["kind"] == "op":
         shape, make, cxs = op_case(rng, case["op"], case["rank"])
         tag = f"op={case['op']} shape={shape}"
@@ -259,4 +267,98 @@ def reference_case(res: Result, rng) -> Result:
     if o.ok:
         compare_param(res, o.value.detach().numpy()[0], ref.eval_param(g, leaf), "reference exp(ref) after in-place update")
     res.sig = "reference:" + str(shape)
+    return res
+
+
+def refcircuit_case(res: Result, rng, k: int) -> Result:
+    """Pointers into a folded tensor: circuit B reads the tensors of circuit A (compiled first, same
+    compiler) through ReferenceParameter nodes under an arbitrary map pos -> pos'.  With fold=True the
+    V tensors of A live in one folded tensor and B's folded leaf is a pointer with a fold index list
+    (identity, a permutation of all folds, a proper subset, repetitions)."""
+    from cirkit.symbolic.initializers import NormalInitializer
+
+    V = rng.randint(2, 4)
+    K = rng.randint(1, 3)
+    ncat = rng.randint(2, 3)
+    fam = rng.choice(["cat-logits", "embedding"])
+    mode = ["permuted-all", "subset", "repeated", "identity"][k % 4]
+    if mode == "permuted-all":
+        while True:
+            m = list(range(V))
+            rng.shuffle(m)
+            if m != list(range(V)):
+                break
+    elif mode == "identity":
+        m = list(range(V))
+    elif mode == "subset":
+        VA = V + rng.randint(1, 2)
+        m = rng.sample(range(VA), V)
+    else:
+        m = [rng.randrange(V) for _ in range(V)]
+        m[0] = m[-1]
+    VA = max(V, max(m) + 1) if mode != "subset" else VA
+    wrap = rng.choice(["bare", "bare", "exp", "had-own"])
+    fold, opt = C.FLAGS[(k // 4) % 4]
+    sr = rng.choice(["sum-product", "lse-sum", "complex-lse-sum"])
+    if sr == "lse-sum":
+        fam = "cat-logits"  # embeddings with negative entries have no lse-sum value
+    tag = f"refcircuit {fam} V={V} K={K} map={m} wrap={wrap} {C.flag_name(fold, opt)} {sr}"
+    res.features |= {"ref:" + mode, "node:ReferenceParameter", "node:TensorParameter", C.flag_name(fold, opt), "sr:" + sr}
+
+    Ko = rng.randint(1, 2)
+
+    def leaf_layer(v, param):
+        if fam == "cat-logits":
+            return L.CategoricalLayer(Scope([v]), K, num_categories=ncat, logits=param)
+        return L.EmbeddingLayer(Scope([v]), K, num_states=ncat, weight=param)
+
+    def build(nv, params, weight):
+        ins = [leaf_layer(v, params[v]) for v in range(nv)]
+        prod = L.HadamardLayer(K, arity=nv)
+        sl = L.SumLayer(K, Ko, arity=1, weight=weight)
+        return Circuit([*ins, prod, sl], {prod: ins, sl: [prod]}, [sl])
+
+    shape = (K, ncat)
+    tensors = [P.TensorParameter(*shape, initializer=NormalInitializer()) for _ in range(VA)]
+
+    def wsum(ko):  # softmax weights: admissible in every semiring
+        return P.Parameter.from_unary(P.SoftmaxParameter((ko, K)), P.Parameter.from_input(P.TensorParameter(ko, K, initializer=NormalInitializer(0.0, 0.5))))
+
+    A = build(VA, [P.Parameter.from_input(t) for t in tensors], wsum(Ko))
+    bparams = []
+    for pos in range(V):
+        r = P.Parameter.from_input(P.ReferenceParameter(tensors[m[pos]]))
+        if wrap == "exp" and fam == "embedding":
+            r = P.Parameter.from_unary(P.ExpParameter(shape), r)
+        elif wrap == "had-own":
+            own = P.Parameter.from_input(P.TensorParameter(*shape, initializer=NormalInitializer()))
+            r = P.Parameter.from_binary(P.HadamardParameter(shape, shape), r, own)
+        bparams.append(r)
+    B = build(V, bparams, wsum(Ko))
+    comp = C.new_compiler(sr, fold, opt)
+    if C.compile_in(res, comp, A, tag + " A") is None:
+        return res
+    ccB = C.compile_in(res, comp, B, tag + " B")
+    if ccB is None:
+        return res
+    res.features |= structs.compiled_features(ccB)
+    for nm, mod in ccB.named_modules():
+        if type(mod).__name__ == "TorchPointerParameter" and mod.num_folds > 1:
+            res.features.add("ref:fold>1")
+    nrng = np_rng(rng)
+    tie.revalue(comp, B, nrng, "normal")
+    tie.revalue(comp, A, nrng, "normal")
+    domB = {v: ("disc", ncat) for v in range(V)}
+    domA = {v: ("disc", ncat) for v in range(VA)}
+    XB = C.input_pool(nrng, domB, 7, limit=81)
+    XA = C.input_pool(nrng, domA, 7, limit=64) if ncat ** VA <= 64 else __import__("vf.gen", fromlist=["random_inputs"]).random_inputs(nrng, domA, 16)
+    for rnd in ("compile", "in-place update of A"):
+        res.count("ref_circuit_checks")
+        if not C.check_value(res, B, comp, ccB, XB, sr, f"{tag} after {rnd}: B"):
+            break
+        if not C.check_value(res, A, comp, comp.get_compiled_circuit(A), XA, sr, f"{tag} after {rnd}: A"):
+            break
+        tie.revalue(comp, A, nrng, "normal")
+    res.sig = short_hash(("refcircuit", fam, V, K, ncat, tuple(m), wrap, fold, opt, sr))
+    res.nontrivial = True
     return res
